@@ -252,8 +252,7 @@ Section WithFloatFunctions.
     let c1 := if is_pnil (c_ptr c) then with_kind c KBool PBools (c_nulls c) else c in
     with_bools c1 (c_bools c1 ++ [b]).
 
-  (* coerce.go.  The error branch evaluates reflect.TypeOf(t).Kind(): for t == nil (a NULL)
-     reflect.TypeOf returns the nil Type and the method call panics. *)
+  (* coerce.go.  A NULL (t == nil) is handled first: `if t == nil { return c.Null() }`. *)
   Definition coerce_scan (k : coerce_kind) (c : column) (t : dval) : outcome column :=
     match k, t with
     | CoInt64ToBool, DInt v => Ok (col_bool c (negb (v =? 0)%Z))
@@ -262,7 +261,7 @@ Section WithFloatFunctions.
         | Some f => Ok (col_float c f)
         | None => Fail
         end
-    | _, DNull => Panic
+    | _, DNull => col_null c
     | _, _ => Fail
     end.
 
